@@ -31,6 +31,29 @@ def quiet():
         sys.stdout = old
 
 
+_BYSTANDERS = []
+
+
+def bystander():
+    """A second, unrelated HWSystem that is built, given a simulator and clocked once AFTER the system under test got its
+    simulator, and stays alive: whatever the simulator or the blocks keep must be per system, not per process.  The last
+    few bystanders are kept referenced (two systems alive at once), older ones are dropped."""
+    import py4hw
+    hw = py4hw.HWSystem()
+    a, b, r, q = hw.wire('by_a', 3), hw.wire('by_b', 3), hw.wire('by_r', 3), hw.wire('by_q', 3)
+    py4hw.Constant(hw, 'by_ka', 5, a)
+    py4hw.Constant(hw, 'by_kb', 6, b)
+    py4hw.And2(hw, 'by_and', a, b, r)
+    py4hw.Reg(hw, 'by_reg', r, q)
+    sim = hw.getSimulator()
+    sim.clk(1)
+    if q.get() != 4 or Wire.prepared:
+        raise HarnessError('the bystander system itself computes %r (expected 4)' % (q.get(),))
+    _BYSTANDERS.append((hw, sim))
+    del _BYSTANDERS[:-3]
+    return hw
+
+
 def all_logic(root):
     """Pre-order list of every Logic in the hierarchy."""
     out = [root]
